@@ -25,17 +25,48 @@ package autog
 //@   loop range(connected.Components(G))#1 index c
 //@     invariant[|C04,C09] shift >= 0.0 && layoutOpts.params.NodeSpacing >= 0.0
 //@     invariant[ends|C04,C09] forall i int :: 0 <= i && i < len(out.Nodes) ==> out.Nodes[i].X + out.Nodes[i].W + layoutOpts.params.NodeSpacing <= shift
+//@     invariant[|C05] forall j int :: 0 <= j && j < len(out.Edges) ==> len(out.Edges[j].Points) == 0 || allocatedArr(out.Edges[j].Points)
 //@   loop range(g.Nodes)#1 index d
-//@     invariant[|C04,C09] len(out.Nodes) >= loopold(len(out.Nodes))
+//@     invariant[|C02,C05] out.Edges == loopold(out.Edges)
+//@     invariant[|C02,C04,C05,C09] len(out.Nodes) >= loopold(len(out.Nodes))
 //@     invariant[starts|C04,C09] forall j int :: loopold(len(out.Nodes)) <= j && j < len(out.Nodes) ==> out.Nodes[j].X >= shift
 //@     invariant[fits|C04,C09] forall j int :: 0 <= j && j < len(out.Nodes) ==>
 //@          out.Nodes[j].X + out.Nodes[j].W + layoutOpts.params.NodeSpacing <= shift
 //@          || (exists b int, k int :: 0 <= b && b < len(g.Layers) && 0 <= k && k < len(g.Layers[b].Nodes)
 //@             && out.Nodes[j].X == g.Layers[b].Nodes[k].X + shift && out.Nodes[j].W == g.Layers[b].Nodes[k].W)
+//@     invariant[nkept|C02,C05] forall j int :: 0 <= j && j < loopold(len(out.Nodes)) ==> out.Nodes[j] == loopold(out.Nodes[j])
+//@     invariant[ncopied|C02] forall i int :: 0 <= i && i < d && (!g.Nodes[i].IsVirtual || layoutOpts.output.includeVirtual) ==>
+//@          (exists j int :: loopold(len(out.Nodes)) <= j && j < len(out.Nodes) && out.Nodes[j].ID == g.Nodes[i].ID
+//@             && out.Nodes[j].W == g.Nodes[i].W && out.Nodes[j].H == g.Nodes[i].H && out.Nodes[j].Y == g.Nodes[i].Y && out.Nodes[j].X == g.Nodes[i].X + shift)
+//@     invariant[nonly|C02] forall j int :: loopold(len(out.Nodes)) <= j && j < len(out.Nodes) ==>
+//@          (exists i int :: 0 <= i && i < d && (!g.Nodes[i].IsVirtual || layoutOpts.output.includeVirtual) && out.Nodes[j].ID == g.Nodes[i].ID
+//@             && out.Nodes[j].W == g.Nodes[i].W && out.Nodes[j].H == g.Nodes[i].H && out.Nodes[j].Y == g.Nodes[i].Y && out.Nodes[j].X == g.Nodes[i].X + shift)
 //@   assert[fitsAfter|C04,C09] after "for _, l := range g.Layers" : forall j int :: 0 <= j && j < len(out.Nodes) ==>
 //@          out.Nodes[j].X + out.Nodes[j].W + layoutOpts.params.NodeSpacing <= shift + rightmostX + layoutOpts.params.NodeSpacing
-//@   loop range(g.Edges)#1 index e
-//@     invariant[|C04,C09] out.Nodes == loopold(out.Nodes)
+//@   loop range(g.Edges)#1 index ei
+//@     invariant[|C02,C04,C05,C09] out.Nodes == loopold(out.Nodes)
+//@     invariant[|C02,C05] len(out.Edges) == loopold(len(out.Edges)) + ei
+//@     invariant[ekept|C02,C05] forall j int :: 0 <= j && j < loopold(len(out.Edges)) ==> out.Edges[j] == loopold(out.Edges[j])
+//@     invariant[ecopied|C02,C05] forall i int :: 0 <= i && i < ei ==>
+//@          out.Edges[loopold(len(out.Edges)) + i].FromID == g.Edges[i].From.ID && out.Edges[loopold(len(out.Edges)) + i].ToID == g.Edges[i].To.ID
+//@          && out.Edges[loopold(len(out.Edges)) + i].ArrowHeadStart == g.Edges[i].ArrowHeadStart
+//@          && len(out.Edges[loopold(len(out.Edges)) + i].Points) == len(g.Edges[i].Points)
+//@     invariant[eshifted|C05] forall i int, k int :: 0 <= i && i < ei && 0 <= k && k < len(g.Edges[i].Points) ==>
+//@          out.Edges[loopold(len(out.Edges)) + i].Points[k][0] == g.Edges[i].Points[k][0] + shift
+//@          && out.Edges[loopold(len(out.Edges)) + i].Points[k][1] == g.Edges[i].Points[k][1]
+//@     invariant[|C05] forall j int :: 0 <= j && j < len(out.Edges) ==> len(out.Edges[j].Points) == 0 || allocatedArr(out.Edges[j].Points)
+//@     invariant[|C05] forall i int, k int :: 0 <= i && i < len(g.Edges) && 0 <= k && k < len(g.Edges[i].Points) ==> g.Edges[i].Points[k] == loopold(g.Edges[i].Points[k])
+//@     invariant[okept|C05] forall j int, k int :: 0 <= j && j < loopold(len(out.Edges)) && 0 <= k && k < len(out.Edges[j].Points) ==> out.Edges[j].Points[k] == loopold(out.Edges[j].Points[k])
+//@   loop range(f.Points)#1 index q
+//@     invariant[|C05] out.Edges == loopold(out.Edges) && out.Nodes == loopold(out.Nodes)
+//@     invariant[|C05] len(f.Points) == len(e.Points) && (len(f.Points) == 0 || allocatedArr(f.Points))
+//@     invariant[|C05] forall i int :: 0 <= i && i < len(g.Edges) ==> len(f.Points) == 0 || arr(g.Edges[i].Points) != arr(f.Points)
+//@     invariant[|C05] forall j int :: 0 <= j && j < len(out.Edges) ==> len(f.Points) == 0 || len(out.Edges[j].Points) == 0 || arr(out.Edges[j].Points) != arr(f.Points)
+//@     invariant[|C05] forall j int :: 0 <= j && j < len(out.Edges) ==> out.Edges[j] == loopold(out.Edges[j])
+//@     invariant[|C05] forall i int, k int :: 0 <= i && i < len(g.Edges) && 0 <= k && k < len(g.Edges[i].Points) ==> g.Edges[i].Points[k] == loopold(g.Edges[i].Points[k])
+//@     invariant[|C05] forall j int, k int :: 0 <= j && j < len(out.Edges) && 0 <= k && k < len(out.Edges[j].Points) ==> out.Edges[j].Points[k] == loopold(out.Edges[j].Points[k])
+//@     invariant[|C05] forall k int :: 0 <= k && k < q ==> f.Points[k][0] == e.Points[k][0] + shift && f.Points[k][1] == e.Points[k][1]
+//@     invariant[|C05] forall k int :: q <= k && k < len(f.Points) ==> f.Points[k] == e.Points[k]
 //@   loop range(g.Layers)#1 index a
 //@     invariant[|C04,C09] rightmostX >= 0.0
 //@     invariant[rightmost|C04,C09] forall b int, k int :: 0 <= b && b < a && 0 <= k && k < len(g.Layers[b].Nodes) ==>
